@@ -45,7 +45,7 @@ EXHAUSTIVE_NOTE = 'per sampled (workload, pipeline, method, initial state): all 
 SLICES = 4
 OCC = ['first', 'second', 'middle', 'last-but-one', 'last']
 SEAM_ERRORS = {
-    'pysam.sort': ['SamtoolsError'], 'pysam.index': ['SamtoolsError'], 'pysam.merge': ['SamtoolsError'], 'pysam.idxstats': ['SamtoolsError'],
+    'pysam.sort': ['SamtoolsError', 'SamtoolsError+partial'], 'pysam.index': ['SamtoolsError'], 'pysam.merge': ['SamtoolsError', 'SamtoolsError+partial'], 'pysam.idxstats': ['SamtoolsError'],
     'AlignmentFile.write': ['OSError:ENOSPC', 'OSError:EIO'], 'AlignmentFile.close': ['OSError:ENOSPC'],
     'os.rename': ['OSError:ENOSPC', 'OSError:EACCES'], 'os.remove': ['OSError:EACCES'], 'move': ['OSError:ENOSPC'], 'shutil.rmtree': ['OSError:EACCES'],
 }
@@ -54,7 +54,7 @@ SEAM_ERRORS = {
 def plan(tier):
     if tier == 'quick':
         return {'runs': 32, 'budget_s': 20, 'chunk': 1, 'per_run_timeout': 900, 'min_s': 30}
-    return {'runs': 640, 'budget_s': 540, 'chunk': 1, 'per_run_timeout': 1800, 'min_s': 60}
+    return {'runs': 640, 'budget_s': 480, 'chunk': 1, 'per_run_timeout': 1800, 'min_s': 60, 'selftest_n': 12}
 
 
 def setup():
@@ -103,6 +103,7 @@ def enumerate_plans(crossings, seam_calls, njobs, mp, tier, bytes_written):
     for first in sorted({0, max(0, n - 1)}):
         if n:
             plans.append({'kind': 'fault3', 'seam': 'pysam.sort', 'nth': first, 'error': 'SamtoolsError'})
+            plans.append({'kind': 'fault3', 'seam': 'pysam.sort', 'nth': first, 'error': 'SamtoolsError+partial'})
     if mp:
         for t in range(njobs):
             for wk in ('exception', 'lost-before', 'lost-after'):
